@@ -437,4 +437,94 @@ def ReachH (c : Cfg) (s : St) : Prop := ∃ evs, runH c init evs = some s
 /-- every state the event system can be in, for every event list -/
 def Reach (c : Cfg) (s : St) : Prop := ∃ evs, run c init evs = some s
 
+/-! ## Read side: the plugin's record stream, `Source.Stop`, and the v1 `SourceNode` stop protocol
+
+Mirrors /repo/pkg/connector/source.go `Source.Stop` (the Stop RPC and what it returns) and
+/repo/pkg/lifecycle/stream/source.go `SourceNode.Run` / `stopGraceful` (the stop position travels
+as a control message; the node ends once the position of the record it processed last equals it).
+A layer over M3: M3's events pass through unchanged; `restart` starts a new run (read side reset),
+`tdBegin` (the node's deferred `Source.Teardown`) needs the node to have left its loop. -/
+
+/-- read side of one run (one plugin incarnation) -/
+structure RSide where
+  /-- position of the last record the plugin handed out in THIS run (plugin side; none = nothing yet) -/
+  out : Option Pos := none
+  /-- records handed out by the plugin and not yet processed by the node (`Source.Read` / trigger) -/
+  q : List Pos := []
+  /-- `lastPosition` of `SourceNode.Run`: the record processed last in this run -/
+  nlast : Option Pos := none
+  /-- `n.stop.positionFetched` / `n.stop.position`: what `Source.Stop` returned -/
+  fetched : Option (Option Pos) := none
+  /-- the stop control message has been processed by the node loop (`stopPosition` set) -/
+  ctl : Bool := false
+  /-- `SourceNode.Run` left its loop with the stop reason -/
+  ended : Bool := false
+deriving Repr, DecidableEq, Inhabited, Hashable
+
+structure RSt where
+  m : St
+  r : RSide
+deriving Repr, DecidableEq, Inhabited
+
+inductive REv
+  | m (e : Ev)          -- an event of M3
+  | emit (p : Pos)      -- the plugin hands out the record at position p
+  | nodeRead            -- the node processes the next record (Read, Send downstream)
+  | stopRpc             -- SourceNode.stopGraceful: `Source.Stop` (plugin Stop RPC)
+  | ctl                 -- the node loop processes the stop control message
+deriving Repr, DecidableEq, Inhabited
+
+/-- the position the plugin of this run was opened with (0 = from the beginning) -/
+def openPos (s : St) : Nat := (s.opened.getLast?.getD none).getD 0
+
+/-- What `Source.Stop` returns, given the plugin's reply (`resp.LastPosition` = the last position it
+handed out in this run, empty if none). `fallback = false` is the code at the pinned commit: exactly
+the reply (fact `sourceStopReturnsPluginReply`, Facts/C06). `fallback = true` is the shape "an empty
+reply is replaced by the stored position the connector resumed from". -/
+def stopResult (fallback : Bool) (s : St) (reply : Option Pos) : Option Pos :=
+  if fallback then (match reply with | none => s.inst.pos | some p => some p) else reply
+
+def rstep (c : Cfg) (fallback : Bool) (s : RSt) : REv → Option RSt
+  | .m e =>
+    match e with
+    | .restart => (step c s.m .restart).map fun m' => { m := m', r := {} }
+    | .tdBegin => if s.r.ended then (step c s.m .tdBegin).map fun m' => { s with m := m' } else none
+    | e => (step c s.m e).map fun m' => { s with m := m' }
+  -- plugin contract: records come in read order after the position it was opened with; none after Stop
+  | .emit p =>
+    if s.m.alive ∧ s.m.pluginUp ∧ s.r.fetched = none ∧ openPos s.m < p ∧ s.r.out.getD 0 < p then
+      some { s with r := { s.r with out := some p, q := s.r.q ++ [p] } }
+    else none
+  -- `lastPosition = msg.Record.Position; Send; if bytes.Equal(stopPosition, lastPosition) return`
+  | .nodeRead =>
+    match s.r.q with
+    | p :: rest =>
+      if s.m.alive ∧ ¬ s.r.ended then
+        some { s with r := { s.r with q := rest, nlast := some p,
+                                       ended := s.r.ctl && s.r.fetched == some (some p) } }
+      else none
+    | [] => none
+  | .stopRpc =>
+    if s.m.alive ∧ s.m.pluginUp ∧ ¬ s.r.ended ∧ s.r.fetched = none then
+      some { s with r := { s.r with fetched := some (stopResult fallback s.m s.r.out) } }
+    else none
+  -- `stopPosition = msg.Record.Position; if bytes.Equal(stopPosition, lastPosition) return`
+  | .ctl =>
+    match s.r.fetched with
+    | some pos =>
+      if s.m.alive ∧ ¬ s.r.ctl ∧ ¬ s.r.ended then
+        some { s with r := { s.r with ctl := true, ended := pos == s.r.nlast } }
+      else none
+    | none => none
+
+def rinit : RSt := { m := init, r := {} }
+
+def rrun (c : Cfg) (fallback : Bool) : RSt → List REv → Option RSt
+  | s, [] => some s
+  | s, e :: es => match rstep c fallback s e with
+    | some s' => rrun c fallback s' es
+    | none => none
+
+def RReach (c : Cfg) (fallback : Bool) (s : RSt) : Prop := ∃ evs, rrun c fallback rinit evs = some s
+
 end Conduit.SrcAck
